@@ -131,7 +131,11 @@ class Ctx:
         except z3.Z3Exception:
             r = "unknown"
         finally:
-            _WD["deadline"] = None
+            with _WD_LOCK:
+                _WD["deadline"] = None
+                fired = _WD.pop("fired", False)
+            if fired:
+                _flush_cancel(self.s)
         self.stats.solver_s += time.perf_counter() - t
         self.stats.queries += 1
         return r
@@ -934,15 +938,36 @@ PATH_WALL_S = 90.0
 _WD: dict = {"thread": None, "pid": None, "deadline": None, "ctx": None}
 
 
+_WD_LOCK = threading.Lock()
+
+
 def _wd_loop() -> None:
     while True:
         time.sleep(0.5)
-        d = _WD["deadline"]
-        if d is not None and time.time() > d:
-            _WD["deadline"] = None
+        with _WD_LOCK:
+            d = _WD["deadline"]
+            if d is not None and time.time() > d:
+                _WD["deadline"] = None
+                _WD["fired"] = True
+                try:
+                    _WD["ctx"].interrupt()
+                except Exception:
+                    pass
+
+
+def _flush_cancel(s: Any) -> None:
+    """An interrupt that arrives when no check is running stays pending in the z3 context ('push canceled', 'there is no
+    current model') until the next check consumes it: consume it with a throw-away check on an empty scope."""
+    for _ in range(2):
+        try:
+            s.push()
+            s.pop()
+            return
+        except z3.Z3Exception:
             try:
-                _WD["ctx"].interrupt()
-            except Exception:
+                s.set("timeout", 1000)
+                s.check()
+            except z3.Z3Exception:
                 pass
 
 
@@ -950,7 +975,11 @@ def _watch(zctx: Any, seconds: float) -> None:
     """One watchdog thread per process (restarted after fork): interrupts a solver call that overstays."""
     import os
 
+    global _WD_LOCK
     if _WD["pid"] != os.getpid() or _WD["thread"] is None or not _WD["thread"].is_alive():
+        if _WD["pid"] != os.getpid():
+            _WD_LOCK = threading.Lock()  # a lock copied by fork may be held by a thread that does not exist here
+            _WD.pop("fired", None)
         t = threading.Thread(target=_wd_loop, daemon=True)
         _WD.update(thread=t, pid=os.getpid())
         t.start()
@@ -971,6 +1000,26 @@ def _arm(seconds: float) -> None:
     except (ValueError, OSError):
         pass
 
+
+
+def _guard_z3(fn: Any) -> Any:
+    """A z3 exception inside an engine call (a pending interrupt: 'canceled', 'model is not available') must never look
+    like an exception of the code under test: it becomes the engine signal SolverUnknown (a BaseException)."""
+    import functools
+
+    @functools.wraps(fn)
+    def w(*a: Any, **k: Any) -> Any:
+        try:
+            return fn(*a, **k)
+        except z3.Z3Exception as e:
+            raise SolverUnknown(f"z3: {str(e)[:60]}")
+
+    return w
+
+
+for _name in ("branch", "branch_sel", "realize", "choose", "add", "norm", "ensure_model", "query", "query_lazy", "valid"):
+    if hasattr(Ctx, _name):
+        setattr(Ctx, _name, _guard_z3(getattr(Ctx, _name)))
 
 
 def solver() -> z3.Solver:
@@ -1007,6 +1056,7 @@ def explore(
         # dfs: newest prefix first; bfs: shortest (oldest) first - under a budget this explores the short
         # paths (few retries) before the long ones
         prefix = stack.pop() if order == "dfs" else stack.pop(0)
+        _flush_cancel(s)
         s.push()
         c = Ctx(s, prefix, stats, max_steps=max_steps)
         Ctx.cur = c
@@ -1033,6 +1083,11 @@ def explore(
             n += 1
         except SolverUnknown as e:
             out.append(PathResult("unknown", prefix=c.prefix, detail=str(e)))
+            n += 1
+        except z3.Z3Exception as e:
+            # a late watchdog interrupt hit a call outside _check (model retrieval, simplify): the path is inconclusive
+            stats.unknown += 1
+            out.append(PathResult("unknown", prefix=c.prefix, detail=f"z3: {str(e)[:80]}"))
             n += 1
         finally:
             _arm(0)
